@@ -15,7 +15,7 @@ from ..simdev import core as sd
 from ..simdev import services as sv
 from ..vsched import core as vcore
 
-HORIZON = 120.0          # virtual seconds of silence after the last stimulus = "bounded time"
+HORIZON = 30.0           # virtual seconds of silence after the last stimulus = "bounded time"
 PUBLIC = ('connection_requested', 'connection_failed', 'link_established', 'connected', 'fully_connected',
           'disconnected', 'connection_lost', 'disconnected_link_error')
 SHORT = {'connection_requested': 'requested', 'connection_failed': 'failed', 'link_established': 'established',
@@ -336,9 +336,13 @@ def execute(sc, mutant=None, want_ops=False, want_schedule=False):
             faults.plan[n_epi] = {}
             st['att'] = n_epi
             safe(lambda: cf.open_link('sim://0/%d' % n_epi))
-            wait_until(s, lambda: any(e['e'] == 'cb' and e['att'] == n_epi and e['name'] == 'fully' for e in ev), 30.0)
+            wait_until(s, lambda: any(e['e'] == 'cb' and e['att'] == n_epi and e['name'] == 'fully' for e in ev), 45.0)
         e_th = s.spawn(epilogue, 'epilogue')
-        why3 = s.run(until=lambda: e_th.finished, horizon=s.now + 60.0)
+        # the epilogue runs under a schedule in which time advances only when no thread can run (its own bounded
+        # wait must not be cut short by a "slow thread" tick)
+        pk = sc['policy'][0]
+        epi_pol = make_policy((pk[:-1], sc['policy'][1] + 1)) if pk in ('randomt', 'pctt') else None
+        why3 = s.run(until=lambda: e_th.finished, horizon=s.now + 60.0, policy=epi_pol)
         names = [e['name'] for e in ev if e['e'] == 'cb' and e['att'] == n_epi]
         ev.append({'e': 'epi'})
         epi = {'att': n_epi, 'connected': int('connected' in names), 'fully': int('fully' in names),
@@ -487,6 +491,8 @@ def follow_script(s, sc, cf, ev, st, faults, err_atts, scfs, safe, quiet_call):
                 else:
                     if ch in ('sender', 'driver', 'cf1'):
                         faults.force = ch
+                    if ch == 'to':
+                        op.ready = lambda: False        # the poll times out although a packet may be there
                     s.trace.append(rec.name)
                     s.step_thread(rec)
                     faults.force = None
@@ -520,8 +526,8 @@ def follow_script(s, sc, cf, ev, st, faults, err_atts, scfs, safe, quiet_call):
         elif rp['first'] is None:
             rp['first'] = [i, name, args, {k: (sorted(v) if isinstance(v, set) else v) for k, v in pr.items()},
                            {'state': post['g']['state'], 'link': post['g']['link'], 'lock': post['g']['lock'],
-                            'dead': sorted(post['g']['dead'])}]
-    rp['len'] = len([x for x in script if x[0] != 'EOpen'])
+                            'dead': sorted(post['g']['dead']), 'words': post['words']}]
+    rp['len'] = next((i for i, x in enumerate(script) if x[0] == 'EOpen'), len(script))
     # the scripted part is over: the user ends the last attempt if nothing did, everything runs on
     cmds['user'].append(('close_if_open',))
     cmds['user'].append(('stop',))
@@ -559,7 +565,27 @@ def finish_events(ev, sc, err_atts):
         if e['e'] == 'op' and e['k'] == 'ws' and pending_cf2.pop(th, False):
             d['c'] = 'cf2'
         out.append(d)
-    return out
+    return compress_idle(out)
+
+
+def compress_idle(evs):
+    """The dispatcher's idle poll while link is None (read link -> sleep(1)) returns the design spec to the same
+    state; of every run of such pairs only the first is kept (the traces stay explainable step by step)."""
+    keep = [True] * len(evs)
+    disp_ops = [i for i, e in enumerate(evs) if e['e'] == 'op' and e['st'] == 'disp']
+    seen_pair = False
+    j = 0
+    while j + 1 < len(disp_ops):
+        a, b = disp_ops[j], disp_ops[j + 1]
+        if evs[a]['k'] == 'rl' and evs[b]['k'] == 'sleep':
+            if seen_pair:
+                keep[a] = keep[b] = False
+            seen_pair = True
+            j += 2
+        else:
+            seen_pair = False
+            j += 1
+    return [e for e, k in zip(evs, keep) if k]
 
 
 def quiescence(s, rep, cf, st, why, why2):
@@ -633,7 +659,7 @@ def install_op_log(s, ev, cf, scfs):
 
 # --------------------------------------------------------------------------- which as-is behaviours does the tree have
 BEHAVIOURAL_ASIS = ['syncOpenNoWake', 'pingSelfJoin', 'sendNoFinally', 'staleFetcher', 'errStateRace', 'errInSender',
-                    'dispStalePk']
+                    'dispStalePk', 'updDoubleRelease']
 _defects_cache = {}
 
 
@@ -781,7 +807,7 @@ POLICY_KINDS = ['fifo', 'random', 'pct', 'randomt', 'pctt']
 def systematic(tier, rng):
     """Every fault position of the real handshake x reporter x API, every close position, connect failures;
     each under FIFO and seeded random / PCT schedules."""
-    nseeds = 2 if tier == 'quick' else 12
+    nseeds = 1 if tier == 'quick' else 6
     pols = [('fifo', 0)] + [(k, rng.randrange(1 << 30)) for _ in range(nseeds) for k in ('random', 'pct')]
     out = []
     for pol in pols:
@@ -907,8 +933,11 @@ def signature(t, clause, at):
         return 'NotDisconnected/state=%d/link-%s' % (q['state'], 'none' if q['linknone'] else 'set')
     e = ev[at - 1] if 0 < at <= len(ev) else {}
     if clause in ('Grammar', 'ConnectedBeforeTables', 'FullyBeforeValues', 'AfterDisconnected', 'LostWithoutDisconnected'):
-        w = words.get(e.get('att', 0), [])
-        return '%s/%s/%s' % (clause, '-'.join(w), 'reconnect' if e.get('att', 0) > 1 else 'first-attempt')
+        a = e.get('att', 0)
+        w = words.get(a, [])
+        # was the attempt already being torn down (an error report or close_link of it had begun)?
+        torn = any(x['e'] in ('lerr', 'close') and x['att'] == a for x in ev[:at])
+        return '%s/%s/%s' % (clause, '-'.join(w), 'during-teardown' if torn else ('reconnect' if a > 1 else 'first-attempt'))
     if clause in ('FailureDisconnectedThenLost', 'FailureBeforeFirstPacketFails', 'CloseOneDisconnected'):
         # the thread that ran the report / the call, how it ended, and where an exception came from
         begin = next((x for x in reversed(ev[:at]) if x['e'] in ('lerr', 'close') and x['cid'] == e.get('cid')), {})
@@ -924,7 +953,7 @@ def role_of_t(tn):
 
 # --------------------------------------------------------------------------- TLC configurations built at run time
 BUG_CFGS = ['syncOpenNoWake', 'errInSender', 'pingSelfJoin', 'sendNoFinally', 'sendReread', 'dispReread', 'closeReread',
-            'errReread', 'staleFetcher', 'errStateRace', 'openReread', 'dispStalePk', 'asis']
+            'errReread', 'staleFetcher', 'errStateRace', 'openReread', 'dispStalePk', 'updDoubleRelease', 'asis']
 
 
 def _cfg_with(static_name, scratch, name, **over):
@@ -993,32 +1022,46 @@ def main(tier, seed, replay=None):
                            'dead': t['detail']['dead']}, rp)
         return out.finish()
 
-    workers = int(os.environ.get('VERIF_TLC_WORKERS', '0')) or None
+    from concurrent.futures import ThreadPoolExecutor
+    par = 4
+    workers = int(os.environ.get('VERIF_TLC_WORKERS', '0')) or max(2, common.NCPU // par)
     scratch = tlc.scratch_dir('c02cfg-')
+    pool = ThreadPoolExecutor(par)
     try:
         # 1. the design spec: the repaired design satisfies C02 exhaustively; every as-is code site, switched on alone,
         #    is refuted (vacuity guard); the code as it stands (all switches measured on the tree) is refuted
         cfgs = ['MC_Lifecycle_quick.cfg', 'MC_Lifecycle_quick_sync.cfg'] if tier == 'quick' else \
                ['MC_Lifecycle_quick.cfg', 'MC_Lifecycle_quick_sync.cfg', 'MC_Lifecycle_thorough_long.cfg',
                 'MC_Lifecycle_thorough_sync.cfg', 'MC_Lifecycle_thorough.cfg']
-        for cfg in cfgs:
-            r = tlc.check('MC_Lifecycle.tla', cfg, timeout=3000, workers=workers, coverage=(cfg == 'MC_Lifecycle_quick.cfg' and tier == 'thorough'))
-            out.add_tlc(cfg, r)
-        for b in BUG_CFGS:
-            rb = tlc.expect_violation('MC_Lifecycle.tla', 'MC_Lifecycle_bug_%s.cfg' % b, timeout=1200, workers=workers)
-            out.sensitivity['spec:' + b] = 'refuted (%s) after %d states' % (rb.violated, rb.distinct)
+        f_checks = [(cfg, pool.submit(tlc.check, 'MC_Lifecycle.tla', cfg, timeout=3000, workers=workers,
+                                      coverage=(cfg == 'MC_Lifecycle_quick.cfg' and tier == 'thorough'))) for cfg in cfgs]
+        f_bugs = [(b, pool.submit(tlc.expect_violation, 'MC_Lifecycle.tla', 'MC_Lifecycle_bug_%s.cfg' % b, timeout=1200,
+                                  workers=max(2, workers // 2))) for b in BUG_CFGS]
 
         # 2. spec -> code.  (a) shortest counterexamples of the AS-IS spec with the constants of the real handshake,
         #    one per invariant / API flavour, replayed step by step into the real code
         scripted = []
         combos = [(s_, c_, inv, 2, 1) for s_ in ('FALSE', 'TRUE') for c_ in ('FALSE', 'TRUE')
-                  for inv in ('HistoryOK', 'QuietOK', 'NoThreadDies', 'ReconnectOK')]
+                  for inv in ('HistoryOK', 'QuietOK', 'NoThreadDies', 'ReconnectOK')
+                  if tier == 'thorough' or not (c_ == 'TRUE' and inv in ('QuietOK', 'ReconnectOK'))]
+        combos += [('FALSE', 'FALSE', 'NoJoinUnderSendLock', 2, 1), ('TRUE', 'FALSE', 'NoJoinUnderSendLock', 2, 1)]
         if tier == 'thorough':
             combos += [('FALSE', 'FALSE', inv, 3, 2) for inv in ('HistoryOK', 'QuietOK', 'ReconnectOK')]
-        for (s_, c_, inv, natt, mf) in combos:
-            p = _cfg_with('MC_Lifecycle_asis.cfg', scratch, 'asis.cfg', UseSync=s_, Closer=c_, NAtt=natt, MaxFaults=mf,
+        f_asis = []
+        for i, (s_, c_, inv, natt, mf) in enumerate(combos):
+            p = _cfg_with('MC_Lifecycle_asis.cfg', scratch, 'asis%d.cfg' % i, UseSync=s_, Closer=c_, NAtt=natt, MaxFaults=mf,
                           Defects=_tla_set(defects), INVARIANTS=[inv])
-            r = tlc.run('MC_Lifecycle.tla', p, timeout=1500, workers=workers)
+            f_asis.append(pool.submit(tlc.run, 'MC_Lifecycle.tla', p, timeout=1500, workers=max(2, workers // 2)))
+        nsim = 60 if tier == 'quick' else 600
+        p = _cfg_with('SIM_Lifecycle.cfg', scratch, 'sim.cfg', Defects=_tla_set(defects))
+        f_sim = pool.submit(tlc.simulate, 'MC_Lifecycle.tla', p, num=nsim, depth=160, seed=seed % 100000, timeout=1500)
+        for cfg, f in f_checks:
+            out.add_tlc(cfg, f.result())
+        for b, f in f_bugs:
+            rb = f.result()
+            out.sensitivity['spec:' + b] = 'refuted (%s) after %d states' % (rb.violated, rb.distinct)
+        for (s_, c_, inv, natt, mf), f in zip(combos, f_asis):
+            r = f.result()
             out.states += r.distinct
             out.transitions += r.generated
             out.tlc_runs.append(dict(r.summary(), config='MC_Lifecycle_asis.cfg UseSync=%s Closer=%s NAtt=%d %s' % (s_, c_, natt, inv)))
@@ -1027,9 +1070,7 @@ def main(tier, seed, replay=None):
                 sc['origin'] = 'tlc-counterexample %s sync=%s closer=%s natt=%d' % (inv, s_, c_, natt)
                 scripted.append(sc)
         #    (b) random behaviours of the as-is spec (tlc -simulate), same constants
-        nsim = 60 if tier == 'quick' else 600
-        p = _cfg_with('SIM_Lifecycle.cfg', scratch, 'sim.cfg', Defects=_tla_set(defects))
-        rs, behs = tlc.simulate('MC_Lifecycle.tla', p, num=nsim, depth=160, seed=seed % 100000, timeout=1500)
+        rs, behs = f_sim.result()
         out.add_tlc('SIM_Lifecycle.cfg (-simulate num=%d depth=160)' % nsim, rs)
         for b in behs:
             sc = scenario_from_behaviour(b)
@@ -1037,6 +1078,7 @@ def main(tier, seed, replay=None):
                 sc['origin'] = 'tlc-simulate'
                 scripted.append(sc)
     finally:
+        pool.shutdown(wait=True)
         shutil.rmtree(scratch, ignore_errors=True)
     rtraces = common.pmap(_replay_job, scripted, init=_init, maxtasks=100)
     for r, sc in zip(rtraces, scripted):
@@ -1050,7 +1092,7 @@ def main(tier, seed, replay=None):
 
     # 3. code -> spec: systematic sweeps + seeded random histories, all judged by the monitor
     scs = systematic(tier, rng)
-    nrand = 400 if tier == 'quick' else 12000
+    nrand = 300 if tier == 'quick' else 6000
     scs += [gen_random(rng) for _ in range(nrand)]
     traces = run_scenarios(scs)
     all_scs = scripted + scs
@@ -1090,7 +1132,7 @@ def main(tier, seed, replay=None):
 
     # 4. sensitivity: in-memory mutants on scenarios the unmutated code passes; corrupted traces
     good = [sc for sc, t in zip(scs, traces) if verdicts[t['id']][0] == 'ok']
-    sub = good[::max(1, len(good) // (150 if tier == 'quick' else 600))]
+    sub = good[::max(1, len(good) // (70 if tier == 'quick' else 300))]
     for name in sorted(MUTANTS):
         mt = run_scenarios(sub, mutant=name)
         o2 = common.Outcome('C02', tier, seed)
